@@ -70,6 +70,8 @@ class Template:
 _src_cache = {}
 def source_items(relpath):
     p = os.path.join(REPO, relpath)
+    if not os.path.exists(p) and REPO != "/repo":
+        p = os.path.join("/repo", relpath)   # canary overlays hold only the mutated file
     key = p
     if key not in _src_cache:
         toks, _ = tokenize(open(p).read().replace('\r', ''))
@@ -206,8 +208,8 @@ def imported_spec(other, b):
     exp = other.meta["export"]
     for it in split_items(toks):
         if exp:
-            if it.name not in exp: continue
-            if it.kind == "fn" and it.mode == "spec":
+            if it.name not in exp and ("=" + it.name) not in exp: continue
+            if it.kind == "fn" and it.mode == "spec" and ("=" + it.name) not in exp:
                 # abstract view: the importer sees an uninterpreted symbol, never the definition
                 body = first_brace_depth0(it.toks, it.kw_idx)
                 sig = it.toks[it.kw_idx:body]
